@@ -2088,10 +2088,13 @@ fn do_render_node<T: Write, D: TextDecorator>(
             let min_number = start;
             // Assumption: num_items can't overflow isize.
             let max_number = start.saturating_add((num_items as i64) - 1);
-            let prefix_width_min = renderer.ordered_item_prefix(min_number).len();
-            let prefix_width_max = renderer.ordered_item_prefix(max_number).len();
+            // Markers are measured in display columns, as in the size estimate.
+            let prefix_width_min =
+                UnicodeWidthStr::width(renderer.ordered_item_prefix(min_number).as_str());
+            let prefix_width_max =
+                UnicodeWidthStr::width(renderer.ordered_item_prefix(max_number).as_str());
             let prefix_width = max(prefix_width_min, prefix_width_max);
-            let prefixn = format!("{: <width$}", "", width = prefix_width);
+            let prefixn = " ".repeat(prefix_width);
             let i: Cell<_> = Cell::new(start);
 
             TreeMapResult::PendingChildren {
@@ -2109,8 +2112,9 @@ fn do_render_node<T: Write, D: TextDecorator>(
                 })),
                 postfn: Some(Box::new(move |renderer: &mut TextRenderer<D>, _| {
                     let sub_builder = renderer.pop();
-                    let prefix1 = renderer.ordered_item_prefix(i.get());
-                    let prefix1 = format!("{: <width$}", prefix1, width = prefix_width);
+                    let mut prefix1 = renderer.ordered_item_prefix(i.get());
+                    let pad = prefix_width.saturating_sub(UnicodeWidthStr::width(prefix1.as_str()));
+                    prefix1.push_str(&" ".repeat(pad));
 
                     renderer.append_subrender(
                         sub_builder,
@@ -2853,7 +2857,7 @@ fn calc_ol_prefix_size<D: TextDecorator>(start: i64, num_items: usize, decorator
     let max_number = start.saturating_add((num_items as i64) - 1);
 
     // This assumes that the decorator gives the same width as default.
-    let prefix_width_min = decorator.ordered_item_prefix(min_number).len();
-    let prefix_width_max = decorator.ordered_item_prefix(max_number).len();
+    let prefix_width_min = UnicodeWidthStr::width(decorator.ordered_item_prefix(min_number).as_str());
+    let prefix_width_max = UnicodeWidthStr::width(decorator.ordered_item_prefix(max_number).as_str());
     max(prefix_width_min, prefix_width_max)
 }
